@@ -54,8 +54,9 @@ type kvElection struct {
 
 	wg sync.WaitGroup
 
-	ctx    context.Context
-	cancel context.CancelFunc
+	ctx     context.Context
+	cancel  context.CancelFunc
+	stopped bool // a stop call has been made and Start has not been called since (guarded by mu)
 
 	onPromote func(ctx context.Context, token string)
 	onDemote  func()
@@ -192,11 +193,12 @@ func (e *kvElection) Start(ctx context.Context) error {
 	e.mu.Lock()
 	defer e.mu.Unlock()
 
-	if e.ctx != nil && e.ctx.Err() == nil {
+	if e.ctx != nil && e.ctx.Err() == nil && !e.stopped {
 		return ErrAlreadyStarted
 	}
 
 	e.ctx, e.cancel = context.WithCancel(ctx)
+	e.stopped = false
 	e.acquiredWhileStopping.Store(false)
 
 	if e.connectionMonitor != nil {
@@ -606,6 +608,7 @@ func (e *kvElection) Stop() error {
 		e.mu.Unlock()
 		return ErrAlreadyStopped
 	}
+	e.stopped = true
 
 	wasLeader := e.isLeader.Load()
 
@@ -677,10 +680,11 @@ func (e *kvElection) Stop() error {
 func (e *kvElection) StopWithContext(ctx context.Context, opts StopOptions) error {
 	e.mu.Lock()
 
-	if e.ctx == nil {
+	if e.ctx == nil || e.stopped {
 		e.mu.Unlock()
 		return ErrAlreadyStopped
 	}
+	e.stopped = true
 
 	wasLeader := e.isLeader.Load()
 
